@@ -330,6 +330,10 @@ impl TopicFilter {
             if has_all {
                 return (true, 0);
             }
+            // "+" must occupy an entire level of the filter
+            if has_one && c != LEVEL_SEP {
+                return (true, 0);
+            }
 
             if is_shared && char_idx < 7 && c != SHARED_PREFIX_CHARS[char_idx] {
                 is_shared = false;
